@@ -537,6 +537,7 @@ func init() {
 			items = append(items, Item{Name: "language-tables", MaxDevs: -1, Run: c09LangTableScenario})
 			items = append(items, Item{Name: "environment-namespaces", MaxDevs: -1, Run: c09EnvNamespaceScenario})
 			items = append(items, Item{Name: "environment-definition-order", MaxDevs: -1, Run: c09EnvDefinitionOrderScenario})
+			items = append(items, Item{Name: "flat-sources-with-absent-optional-records", MaxDevs: -1, Run: c09FlatOptionalRecordScenario})
 			// every message is the formatter's answer for its own issue, whatever was formatted just before it:
 			// the shape grammar and the small catalogue skeletons again, under a formatter that names path and code
 			for _, it := range coreItemsFiltered(tier, c09Scenario, func(a *Alpha) { a.Lite = true }, []int{0, 1}, 2, func(ns NamedSkel) bool {
@@ -608,6 +609,85 @@ func c09EnvDefinitionOrderScenario(x *mc.X) *mc.Outcome {
 	if bo.Panic != "" || bo.Panic != po.Panic || !eqStrings(bo.IssueStrings(), po.IssueStrings()) || bd != pd {
 		x.Note("fields c09Ord_port / c09Ord_name; variables spelled in %d other letter cases, defined in order %v (exactly named variables defined: %v)", nvar, perms[perm], exact)
 		out.Viol = append(out.Viol, &mc.Violation{Key: "C09:environment-definition-order", What: "the result of reading the environment depends on the order in which its variables were defined", Expected: bd + " " + fmt.Sprint(bo.IssueStrings()), Observed: pd + " " + fmt.Sprint(po.IssueStrings())})
+	}
+	return out
+}
+
+// Flat sources (query, form, environment, a Go map holding "" under the record's name) with optional records
+// (Ptr(Struct) without NotNil) that are absent, next to siblings that fail: which issues the siblings report, and
+// under which paths, must not depend on whether the absent records were visited before or after them.
+func c09FlatOptionalRecordScenario(x *mc.X) *mc.Outcome {
+	src := x.Choose(4, "source") // 0 query, 1 form, 2 environment, 3 Go map with "" for the records
+	variant := x.Choose(3, "input") // 0 both siblings fail, 1 one fails and one is missing, 2 a record is present and fails inside
+	type rec struct{ Bio string }
+	type dest struct {
+		Name    string
+		Age     int
+		Profile *rec
+		Billing *rec
+	}
+	vals := map[string]string{}
+	switch variant {
+	case 0:
+		vals["name"], vals["age"] = "ab", "12"
+	case 1:
+		vals["age"] = "12"
+	default:
+		vals["name"], vals["age"], vals["bio"] = "ab", "50", "x"
+	}
+	run := func(om zh.OrderMode) (*Obs, string) {
+		zh.Reset()
+		zh.Install(x, zh.PoolLIFO, om)
+		s := z.Struct(z.Schema{
+			"name":    z.String().Min(3).Required(),
+			"age":     z.Int().GT(18),
+			"profile": z.Ptr(z.Struct(z.Schema{"bio": z.String().Min(2)})),
+			"billing": z.Ptr(z.Struct(z.Schema{"bio": z.String().Min(2)})),
+		})
+		var data any
+		cleanup := func() {}
+		q := url.Values{}
+		for k, v := range vals {
+			q.Set(k, v)
+		}
+		switch src {
+		case 0:
+			data = zhttp.Request(httptest.NewRequest(http.MethodGet, "/?"+q.Encode(), nil))
+		case 1:
+			r := httptest.NewRequest(http.MethodPost, "/", strings.NewReader(q.Encode()))
+			r.Header.Set("Content-Type", "application/x-www-form-urlencoded")
+			data = zhttp.Request(r)
+		case 2:
+			for k, v := range vals {
+				os.Setenv(k, v)
+			}
+			cleanup = func() {
+				for k := range vals {
+					os.Unsetenv(k)
+				}
+			}
+			data = zenv.NewDataProvider()
+		default:
+			m := map[string]any{"profile": "", "billing": ""}
+			for k, v := range vals {
+				m[k] = v
+			}
+			data = m
+		}
+		var d dest
+		o := RunParse(s, data, reflect.ValueOf(&d))
+		cleanup()
+		zh.Reset()
+		ds := fmt.Sprintf("{Name:%s Age:%d Profile:%v Billing:%v}", d.Name, d.Age, d.Profile != nil, d.Billing != nil)
+		return o, ds
+	}
+	bo, bd := run(zh.OrderSorted)
+	po, pd := run(zh.OrderFree)
+	out := &mc.Outcome{Traces: 2, Nontrivial: true, Sig: fmt.Sprintf("flatopt|%d|%d|%v", src, variant, bo.IssueStrings())}
+	out.Sample = map[string]any{"source": []string{"query", "form", "environment", "Go map"}[src], "input": vals, "issues": bo.IssueStrings(), "dest": bd, "panic": bo.Panic}
+	if bo.Panic != po.Panic || !eqStrings(bo.IssueStrings(), po.IssueStrings()) || bd != pd {
+		x.Note("schema {name (required, min 3), age (>18), profile: Ptr({bio}), billing: Ptr({bio})}; %s input %v", []string{"query", "form", "environment", "Go map"}[src], vals)
+		out.Viol = append(out.Viol, &mc.Violation{Key: "C09:flat-source-optional-records:" + []string{"query", "form", "env", "map"}[src], What: "issues (or the destination) of a record read from a flat source depend on the order in which absent optional records and their siblings were visited", Expected: bd + " " + fmt.Sprint(bo.IssueStrings()), Observed: pd + " " + fmt.Sprint(po.IssueStrings()) + " " + po.Panic})
 	}
 	return out
 }
